@@ -545,6 +545,55 @@ func genAdvertise(repo string) *leanFile {
 		}
 	}
 
+	// schedule(): on cancellation, does the scheduler wait for transmissions in flight?  True iff
+	// some object X is used both inside a worker closure (X.enter / X.Add …) and in the
+	// `case <-ctx.Done()` clause (X.close / X.Wait …), X other than the schedgroup and ctx.
+	if fd := fl.fn("Advertiser.schedule"); fd != nil {
+		recvOf := func(n ast.Node) map[string]bool {
+			out := map[string]bool{}
+			ast.Inspect(n, func(m ast.Node) bool {
+				if c, ok := m.(*ast.CallExpr); ok {
+					if sel, ok := c.Fun.(*ast.SelectorExpr); ok {
+						if id, ok := sel.X.(*ast.Ident); ok {
+							out[id.Name] = true
+						}
+					}
+				}
+				return true
+			})
+			return out
+		}
+		inWorkers := map[string]bool{}
+		ast.Inspect(fd.Body, func(n ast.Node) bool {
+			if fl, ok := n.(*ast.FuncLit); ok {
+				for k := range recvOf(fl.Body) {
+					inWorkers[k] = true
+				}
+			}
+			return true
+		})
+		awaits := false
+		ast.Inspect(fd.Body, func(n ast.Node) bool {
+			cc, ok := n.(*ast.CommClause)
+			if !ok || cc.Comm == nil {
+				return true
+			}
+			es, isExpr := cc.Comm.(*ast.ExprStmt)
+			if !isExpr || !strings.Contains(exprString(es.X), "ctx.Done") {
+				return true
+			}
+			for _, st := range cc.Body {
+				for k := range recvOf(st) {
+					if inWorkers[k] && k != "sg" && k != "ctx" && k != "a" && k != "time" {
+						awaits = true
+					}
+				}
+			}
+			return true
+		})
+		l.Bool("shutdownAwaitsInflight", awaits, "schedule(): the ctx.Done branch waits on an object the send workers enter/leave")
+	}
+
 	// shutdown: terminate() checked first; lifetime zeroed on a copy
 	if fd := fl.fn("Advertiser.shutdown"); fd != nil {
 		calls := callsIn(fd.Body)
